@@ -232,6 +232,49 @@ func renegMiscUnit(r refCfg) harness.Unit {
 	}}
 }
 
+// renegCutUnit: the stream ends after every record of a session with one renegotiation.
+func renegCutUnit(r refCfg) harness.Unit {
+	return harness.Unit{Name: fmt.Sprintf("renegotiation-end-of-stream/%s", r), Run: func(c *harness.Ctx) {
+		pl := &tlsk.RenegPlan{Rounds: 1, Echo: true}
+		o := r.renegRun(gmtls.RenegotiateFreelyAsClient, pl)
+		total := len(o.Records)
+		if fs := tlsk.JudgeReneg(o, pl, refdev.MustComplete, -1, false, false); len(fs) > 0 && r.tls {
+			c.Violate("control-fails:renegotiation:"+r.String(), fmt.Sprintf("honest renegotiation does not complete: %v", fs), nil, nil)
+			return
+		}
+		for k := 1; k < total; k++ {
+			pl := &tlsk.RenegPlan{Rounds: 1, Echo: true}
+			cfg := r.libConfig()
+			cfg.Renegotiation = gmtls.RenegotiateFreelyAsClient
+			seen := 0
+			o := tlsk.RunLibVsRef(cfg, true, pl.App(), r.identity(), 23, func(q *gmref.Peer) { r.setup(q); q.EchoRenegInfo = true }, &gmref.Script{Data: pl.Data()}, &cutter{after: k, seen: &seen})
+			tag := fmt.Sprintf("%s; one renegotiation; the stream ends after record %d of %d", r, k, total)
+			c.Add("executions", 1)
+			c.Add("transitions", int64(k))
+			c.DistinctS("states", tag)
+			c.DistinctS("outcomes", fmt.Sprintf("%d/%v/%v", len(o.Lib.Read), o.Lib.Complete, o.Lib.ReadErr != nil))
+			if o.Lib.Panic != nil {
+				c.Violate("panic:renegotiation:"+site(o.Lib.Stack), fmt.Sprintf("[%s] the client panicked: %v\n%s", tag, o.Lib.Panic, clip(o.Lib.Stack, 1500)), nil, tag)
+				continue
+			}
+			if o.LibStuck || o.Horizon {
+				c.Violate("hang:renegotiation:end-of-stream", fmt.Sprintf("[%s] the client keeps waiting although its input has ended: %s", tag, o.Describe()), nil, tag)
+				continue
+			}
+			reply := pl.Reply()
+			if len(o.Lib.Read) > len(reply) || string(reply[:len(o.Lib.Read)]) != string(o.Lib.Read) {
+				c.Violate("renegotiation:data:end-of-stream", fmt.Sprintf("[%s] the client delivered %q, the server wrote %q", tag, o.Lib.Read, reply), nil, tag)
+			}
+			if len(o.Lib.Read) < len(reply) && o.Lib.Complete && o.Lib.ReadErr == nil {
+				c.Violate("renegotiation:no-error:end-of-stream", fmt.Sprintf("[%s] the client got %q of %q and reported no error: %s", tag, o.Lib.Read, reply, o.Describe()), nil, tag)
+			}
+			if !o.Lib.Complete && o.Lib.HandshakeErr == nil {
+				c.Violate("renegotiation:eof-without-error", fmt.Sprintf("[%s] the client neither completed nor returned an error", tag), nil, tag)
+			}
+		}
+	}}
+}
+
 func renegUnits() []harness.Unit {
 	var u []harness.Unit
 	cfgs := []refCfg{
@@ -241,7 +284,7 @@ func renegUnits() []harness.Unit {
 		{true, gmtls.GMTLS_ECC_SM4_CBC_SM3, false, false, 0, false, false}, {true, gmtls.GMTLS_ECC_SM4_GCM_SM3, false, false, 0, false, false},
 	}
 	for _, r := range cfgs {
-		u = append(u, renegPolicyUnit(r), renegMiscUnit(r))
+		u = append(u, renegPolicyUnit(r), renegMiscUnit(r), renegCutUnit(r))
 		if r.tls {
 			u = append(u, renegSequenceUnit(r, 0, 0), renegSequenceUnit(r, 1, 0))
 		}
